@@ -165,6 +165,15 @@ def run_check(pid, tier, seed, plan=None):
     }
     wall = time.time() - t0
     judge.write_evidence(pid, tier, seed, "model_checking", coverage, wall, nviol, ASSUMPTIONS)
+    okcount = collections.Counter()
+    for tr in traces:
+        for ev in tr["events"]:
+            if ev.get("out") == "ok":
+                okcount[ev["op"]] += 1
+    for op_, need in getattr(plan, "REQUIRED_OK", {}).get(pid, {}).items():
+        if okcount[op_] < need:
+            machinery_errors.append("vacuity guard: only %d successful %s operations were exercised (need >= %d)"
+                                    % (okcount[op_], op_, need))
     for ln in lines:
         print(ln)
     if machinery_errors:
